@@ -88,14 +88,14 @@ V_ENSURES(g_fpos[G_IX(zck->fd)] == V_OLD(g_fpos[G_IX(zck->fd)])) /*@C12,C05.tell
 #define CBD ((zckDL *)dl_v)
 #define CB_LEN_OK(l, c) ((l) <= MPX_LMAX && (c) <= MPX_LMAX && (l) * (c) <= MPX_LMAX)
 #define CB_HOOKS(dl) (((dl)->write_cb == NULL || (dl)->write_cb == verif_user_wcb) && ((dl)->header_cb == NULL || (dl)->header_cb == verif_user_wcb))
-#define CB_DL(dl) (DL_MP_CTX(dl) && (dl)->zck != NULL && ((dl)->boundary == NULL || STR_TERMINATED((dl)->boundary)) && MPX_DL(dl) && CB_HOOKS(dl))
+#define CB_DL(dl) (DL_MP_CTX(dl) && (dl)->zck != NULL && (dl)->mp != NULL && ((dl)->boundary == NULL || STR_TERMINATED((dl)->boundary)) && MPX_DL(dl) && CB_HOOKS(dl))
 /* a chunk newly marked failed (-1) during the invocation => the callback does not report "all n bytes taken" */
 #define CB_FAIL_REPORTED1(r, ret, n) (DR_ABSENT(r) || DR_VALID0(r) == -1 || (r)->src->valid != -1 || (ret) != (n))
 size_t zck_write_chunk_cb(void *ptr, size_t l, size_t c, void *dl_v)
 V_REQUIRES(dl_v != NULL && CB_DL(CBD))
 V_REQUIRES(CB_LEN_OK(l, c) && (l * c == 0 || __CPROVER_rw_ok(ptr, l * c)))
-V_ASSIGNS(CBD->dl; CBD->dl_regex; CBD->end_regex; CBD->mp != NULL: *CBD->mp; l * c > 0: __CPROVER_object_upto((char *)ptr, l * c); DL_RANGE_ASSIGNS(CBD))
-V_FREES(CBD->mp != NULL: CBD->mp->buffer; CBD->zck->check_chunk_hash.ctx)
+V_ASSIGNS(CBD->dl; CBD->dl_regex; CBD->end_regex; *CBD->mp; l * c > 0: __CPROVER_object_upto((char *)ptr, l * c); DL_RANGE_ASSIGNS(CBD))
+V_FREES(CBD->mp->buffer; CBD->zck->check_chunk_hash.ctx)
 V_ENSURES(CB_DL(CBD)) /*@C05,C17.zck_write_chunk_cb.parser_and_download_state_invariants_kept_on_every_return*/
 V_ENSURES(l * c == 0 || (CB_FAIL_REPORTED1(g_dr1, __CPROVER_return_value, l * c) && CB_FAIL_REPORTED1(g_dr2, __CPROVER_return_value, l * c) && CB_FAIL_REPORTED1(g_dr3, __CPROVER_return_value, l * c))) /*@C05.zck_write_chunk_cb.a_checksum_mismatch_is_reported_by_the_callback*/
 V_ENSURES(l * c == 0 || V_OLD(CBD->zck->error_state) == 0 || __CPROVER_return_value != l * c) /*@C05,C12,C17.zck_write_chunk_cb.a_context_in_error_is_reported_by_the_callback*/
